@@ -864,7 +864,11 @@ pub fn run_guarded<C: CheckDef>(case: &C::Case, trace: bool) -> Outcome {
     CURRENT_CASE.with(|c| {
         *c.borrow_mut() = Some((Instant::now(), String::new()));
     });
-    WATCH.with(|w| w.begin());
+    WATCH.with(|w| {
+        w.cur.0.store(case as *const C::Case as usize as u64, Ordering::Relaxed);
+        w.cur.1.store(dump_case_at::<C> as fn(usize, &str) -> String as usize as u64, Ordering::Relaxed);
+        w.begin()
+    });
     let (r, panics) = catch(|| C::run(case, trace));
     WATCH.with(|w| w.end());
     match r {
@@ -1017,15 +1021,28 @@ pub fn replay_file<C: CheckDef>(id: &str, v: &Value) -> Option<i32> {
 
 pub struct Watch {
     slot: Arc<AtomicU64>, // start time in ms since process start, 0 = idle
+    /// address of the case being run and of a function that serialises it (read by the watchdog thread only when
+    /// the case has hung: the owning thread is stuck inside it, the case is not mutated)
+    cur: Arc<(AtomicU64, AtomicU64, AtomicU64)>,
 }
 static WATCH_SLOTS: Mutex<Vec<Arc<AtomicU64>>> = Mutex::new(Vec::new());
+static WATCH_CUR: Mutex<Vec<(Arc<AtomicU64>, Arc<(AtomicU64, AtomicU64, AtomicU64)>)>> = Mutex::new(Vec::new());
+
+fn dump_case_at<C: CheckDef>(addr: usize, id: &str) -> String {
+    // SAFETY: `addr` is the address of a live `C::Case` borrowed by the thread that is stuck running it
+    let case: &C::Case = unsafe { &*(addr as *const C::Case) };
+    let p = write_replay::<C>(id, case, None, "hang", "this case ran longer than the per-case wall limit (machinery problem or endless loop)");
+    p.display().to_string()
+}
 static PROCESS_START: std::sync::OnceLock<Instant> = std::sync::OnceLock::new();
 
 thread_local! {
     static WATCH: Watch = {
         let slot = Arc::new(AtomicU64::new(0));
         WATCH_SLOTS.lock().push(slot.clone());
-        Watch { slot }
+        let cur = Arc::new((AtomicU64::new(0), AtomicU64::new(0), AtomicU64::new(0)));
+        WATCH_CUR.lock().push((slot.clone(), cur.clone()));
+        Watch { slot, cur }
     };
 }
 
@@ -1052,7 +1069,19 @@ pub fn start_watchdog(id: &'static str, case_limit_s: u64, total_limit_s: u64) {
             for s in WATCH_SLOTS.lock().iter() {
                 let st = s.load(Ordering::Relaxed);
                 if st != 0 && now.saturating_sub(st) > case_limit_s * 1000 {
-                    println!("INCONCLUSIVE property={id} (a single case ran longer than {case_limit_s}s wall: hang in harness or library)");
+                    // save the case that hangs, so that it can be replayed
+                    let mut saved = String::new();
+                    for (slot, cur) in WATCH_CUR.lock().iter() {
+                        if Arc::ptr_eq(slot, s) {
+                            let (addr, f) = (cur.0.load(Ordering::Relaxed) as usize, cur.1.load(Ordering::Relaxed) as usize);
+                            if addr != 0 && f != 0 {
+                                // SAFETY: stored by run_guarded from a real function of this signature
+                                let f: fn(usize, &str) -> String = unsafe { std::mem::transmute(f) };
+                                saved = f(addr, id);
+                            }
+                        }
+                    }
+                    println!("INCONCLUSIVE property={id} (a single case ran longer than {case_limit_s}s wall: hang in harness or library; case saved to {saved})");
                     std::process::exit(2);
                 }
             }
